@@ -2,6 +2,7 @@
    accepted event stream (any number of demes, generations, evaluations). *)
 From Coq Require Import ZArith Bool List.
 From HV Require Import Ord Select SelectFacts Hist HistFacts Pop PopFacts.
+From HV Require Import GenPop GenEquivPop.
 From HV Require Import RealTraces.
 Import ListNotations.
 
@@ -56,3 +57,19 @@ Proof. vm_compute. eexists. split; reflexivity. Qed.
 
 (* non-vacuity on real data: recorded histories accepted by the history machine, invariant HI holding (Proofs/RealTraces.v) *)
 Definition C02_real_histories_accepted := (real1_history_accepted, real2_history_accepted, real3_history_accepted).
+
+(* ---------------------------------------------------------------- the invalidation code TRANSLATED from the current
+   pyhms/core/population.py and de.py (Gen/GenPop.v): on rows (genome, fitness-or-NaN) it IS the population model of the theorems above —
+   a trial row keeps its parent's fitness exactly when its genome is IDENTICAL (geq = exact array equality), update_genome drops the
+   fitness of exactly the rows whose genome changed *)
+Theorem C02_translated_DE_keep_rule {G} (geq : G -> G -> bool) (p : popo (G:=G)) new : length (pgo p) = length (pfo p) ->
+  combine new (gen_BinaryMutation_new_fitness geq p new) = de_trial geq (rows_o p) new /\
+  combine new (gen_BinaryMutationWithDither_new_fitness geq p new) = de_trial geq (rows_o p) new /\
+  combine new (gen_CurrentToPBestMutation_new_fitness geq p new) = de_trial geq (rows_o p) new /\
+  combine new (gen_Crossover_new_fitness geq p new) = de_trial geq (rows_o p) new.
+Proof. intros L. exact (conj (BinaryMutation_keep geq p new L) (conj (BinaryMutationWithDither_keep geq p new L) (conj (CurrentToPBestMutation_keep geq p new L) (Crossover_keep geq p new L)))). Qed.
+Print Assumptions C02_translated_DE_keep_rule.
+Theorem C02_translated_update_genome {G} (geq : G -> G -> bool) (p : popo (G:=G)) new : length (pgo p) = length (pfo p) -> length new = length (pgo p) ->
+  rows_o (gen_update_genome geq p new) = update_genome geq (rows_o p) new.
+Proof. exact (update_genome_rows geq p new). Qed.
+Print Assumptions C02_translated_update_genome.
